@@ -506,7 +506,11 @@ func (r *htRun) sequence(addr func(htProxy) string, pxs []htProxy, k int, pipeli
 }
 
 // tunnelCheck: protocol upgrade or CONNECT, then bytes both ways
-func (r *htRun) tunnelCheck(addr string, px htProxy, kind string) {
+func (r *htRun) tunnelCheck(addr string, px htProxy, kind string) { r.tunnelCheckHold(addr, px, kind, 0) }
+
+// hold > 0: after the first rounds the tunnel stays silent for that long (longer than vhostHTTPTimeout, which bounds the wait for
+// the response head only) and must still carry bytes afterwards
+func (r *htRun) tunnelCheckHold(addr string, px htProxy, kind string, hold time.Duration) {
 	r.mu.Lock()
 	r.next++
 	id := r.next
@@ -534,8 +538,16 @@ func (r *htRun) tunnelCheck(addr string, px htProxy, kind string) {
 	}
 	okBytes, total := true, 0
 	if err == nil && (status == 101 || status == 200) {
-		for round := 0; round < 3 && okBytes; round++ {
-			n := []int{1, 3000, 300000}[round]
+		rounds := 3
+		if hold > 0 {
+			rounds = 4
+			_ = c.SetDeadline(time.Now().Add(30*time.Second + hold))
+		}
+		for round := 0; round < rounds && okBytes; round++ {
+			n := []int{1, 3000, 300000, 2000}[round]
+			if round == 3 {
+				time.Sleep(hold)
+			}
 			data := genBody(int64(id)*31+int64(round), n)
 			go func() { _, _ = c.Write(data) }()
 			got := make([]byte, n)
@@ -702,7 +714,11 @@ func (r *htRun) one(n int, o htOpts, seqs int, big bool) {
 	}
 	wg.Wait()
 	// tunnels
-	r.tunnelCheck(addr(pxs[0]), pxs[0], "upgrade")
+	if n == 1 {
+		r.tunnelCheckHold(addr(pxs[0]), pxs[0], "upgrade", 9500*time.Millisecond) // vhostHTTPTimeout is 8 s here
+	} else {
+		r.tunnelCheck(addr(pxs[0]), pxs[0], "upgrade")
+	}
 	r.tunnelCheck(addr(pxs[3]), pxs[3], "upgrade")
 	r.tunnelCheck(addr(pxs[0]), pxs[0], "connect")
 	// error mapping: unreachable backend, no response headers in time; a normal request next to each
